@@ -501,6 +501,9 @@ def main(argv):
             unc = uncovered(r, open_labels)
             if unc or r["direct"]:
                 break
+            if not r["harness_ok"] and ("[timeout after" in r.get("harness_out", "") or "test timed out" in r.get("harness_out", "")):
+                agg["harness_out"] = r.get("harness_out", "")
+                break  # the harness hung on the code under test: the other seeds would hang as well
         r = agg
         r["evaluations"] = total_eval
         unc = uncovered(r, open_labels)
@@ -536,10 +539,17 @@ def main(argv):
             broken.append("correspondence: model and implementation disagree on %d case(s)" % len(r["mism"]))
     if violation is None and broken:
         found = None
-        if hb_ok and not a.no_escalate and not a.replay:
+        # a harness that ran into its time limit has hung on the code under test: more of the same will hang again
+        hung = r is not None and not r["harness_ok"] and ("[timeout after" in r.get("harness_out", "") or "test timed out" in r.get("harness_out", ""))
+        budget = time.time() + (420 if tier == "quick" else 1800)   # the escalated search is bounded in time
+        if hb_ok and not a.no_escalate and not a.replay and not hung:
             for k in range(cfg.get("escalate_rounds", 3)):
+                left = int(budget - time.time())
+                if left < 30:
+                    log.append("[escalate] time budget used up after %d round(s)" % k)
+                    break
                 s = seed * 7919 + 101 + k
-                r2 = explore(prop, cfg, outdir, s, cfg.get("n_thorough", n), "thorough", None, log, cfg.get("timeout_thorough", 3000))
+                r2 = explore(prop, cfg, outdir, s, cfg.get("n_thorough", n), "thorough", None, log, min(left, cfg.get("timeout_thorough", 3000)))
                 total_eval += r2["evaluations"]
                 unc = uncovered(r2, open_labels)
                 if unc:
@@ -559,6 +569,7 @@ def main(argv):
                 b, i, c = min(r["mism"], key=lambda x: len(json.dumps(x[2])))
                 first = {"case_file": b, "index": i, "case": c}
             path = write_replay(prop, "unproved", {"property": prop, "seed": seed, "kind": "no-failing-input-found",
+                                                   "harness_hung": hung,
                                                    "no_longer_checks": broken, "first_disagreeing_input": first,
                                                    "log_tail": "\n".join(log)[-6000:]})
             violation = (path, " no-failing-input-found")
